@@ -196,31 +196,37 @@ Section WithCore.
     let (s3, rs) := alloc s2 (OSel []) in
     (s3, {| h_idx := h_idx h; h_names := rn; h_iif := rm; h_sel := rs |}).
 
-  (* resolverCache.Get; [cl = false] is the model with the clone removed
-     (`return pr`), used only for the non-vacuity example *)
+  (* resolverCache.Get: find, else newPkgResolver + fill *)
+  Definition resolver_find_or_build (x : state) (ixs : list idxid) : state * rhandle :=
+    match find_key ixs (rcache x) with
+    | Some h => (x, h)
+    | None =>
+        let (s1, h) := build_resolver (st x) ixs in
+        ({| st := s1; rcache := (ixs, h) :: rcache x; dcache := dcache x |}, h)
+    end.
+
+  (* ... then `return pr.Clone()`. [cl = false] is the model with the clone
+     removed (`return pr`), used only for the non-vacuity example *)
   Definition resolver_get (cl : bool) (x : state) (ixs : list idxid) : state * rhandle :=
-    let '(x1, proto) :=
-      match find_key ixs (rcache x) with
-      | Some h => (x, h)
-      | None =>
-          let (s1, h) := build_resolver (st x) ixs in
-          ({| st := s1; rcache := (ixs, h) :: rcache x; dcache := dcache x |}, h)
-      end in
+    let (x1, proto) := resolver_find_or_build x ixs in
     if cl then
       let (s2, h') := clone_resolver (st x1) proto in
       ({| st := s2; rcache := rcache x1; dcache := dcache x1 |}, h')
     else (x1, proto).
 
-  (* disqualifyCache.Get *)
-  Definition dq_get (cl : bool) (x : state) (archs : list (string * list idxid)) : state * ref :=
+  (* disqualifyCache.Get: find under the concatenated key, else disqualifyDifference + fill *)
+  Definition dq_find_or_build (x : state) (archs : list (string * list idxid)) : state * ref :=
     let k := dkey archs in
-    let '(x1, r) :=
-      match find_key k (dcache x) with
-      | Some r => (x, r)
-      | None =>
-          let (s1, r) := alloc (st x) (ODq (dq_diff archs)) in
-          ({| st := s1; rcache := rcache x; dcache := (k, r) :: dcache x |}, r)
-      end in
+    match find_key k (dcache x) with
+    | Some r => (x, r)
+    | None =>
+        let (s1, r) := alloc (st x) (ODq (dq_diff archs)) in
+        ({| st := s1; rcache := rcache x; dcache := (k, r) :: dcache x |}, r)
+    end.
+
+  (* ... then `return maps.Clone(dq)` *)
+  Definition dq_get (cl : bool) (x : state) (archs : list (string * list idxid)) : state * ref :=
+    let (x1, r) := dq_find_or_build x archs in
     if cl then
       let d := match sget (st x1) r with Some (ODq d) => d | _ => [] end in
       let (s2, r') := alloc (st x1) (ODq d) in
@@ -283,3 +289,33 @@ Section Memo.
   Definition memo_run (t : list (K * V)) (ks : list K) : list (K * V) :=
     fold_left (fun t k => snd (memo_get t k)) ks t.
 End Memo.
+
+(* ---- a small concrete core (for examples only) --------------------------------
+   Enough of a resolver to be sensitive to everything the real one reads and
+   to write everything the real one writes: a request "!n" disqualifies every
+   candidate of n (a write to the disqualification map); a request "n" whose
+   name is already in [selected] is skipped, as getPackageDependencies skips a
+   dependency it finds in p.selected; otherwise the first candidate that is
+   not disqualified is chosen and recorded in [selected]. *)
+Fixpoint alookup_pids (k : string) (m : list (string * list pid)) : option (list pid) :=
+  match m with [] => None | (k', l) :: t => if String.eqb k k' then Some l else alookup_pids k t end.
+Definition toy_step (v : rview) (acc : list (string * pid) * list pid * list (option pid)) (w : string)
+  : list (string * pid) * list pid * list (option pid) :=
+  let '(sel, dq, out) := acc in
+  match w with
+  | String "!" n =>
+      (sel, dq ++ match alookup_pids n (v_names v) with Some l => l | None => [] end, out)
+  | n =>
+      if existsb (fun e => String.eqb (fst e) n) sel then (sel, dq, out)
+      else match alookup_pids n (v_names v) with
+           | Some l =>
+               match filter (fun p => negb (existsb (pid_eqb p) dq)) l with
+               | p :: _ => (sel ++ [(n, p)], dq, out ++ [Some p])
+               | [] => (sel, dq, out ++ [None])
+               end
+           | None => (sel, dq, out ++ [None])
+           end
+  end.
+Definition toy_f (v : rview) (w : list string) : list (string * pid) * list pid * list (option pid) :=
+  fold_left (toy_step v) w (v_sel v, v_dq v, []).
+Definition toy_core := core_of toy_f [].
